@@ -406,8 +406,20 @@ class Extractor:
 
     # -- statements ----------------------------------------------------------
     def walk_body(self, stmts):
-        for s in stmts:
-            self.walk_stmt(s)
+        # `if c: ...; continue` (no else) makes the rest of the block run only when c is false: the rest is walked under the
+        # frame the else-arm would have had, so that an effect after the skip does not look unconditional
+        pushed = 0
+        try:
+            for s in stmts:
+                self.walk_stmt(s)
+                last = getattr(self, "_last_if", None)
+                if (isinstance(s, ast.If) and not s.orelse and s.body and isinstance(s.body[-1], (ast.Continue, ast.Break))
+                        and last is not None and last[0] is s and not last[3]):
+                    self.frames.append(("py", last[1], last[2], "skip"))
+                    pushed += 1
+        finally:
+            for _ in range(pushed):
+                self.frames.pop()
 
     def walk_stmt(self, s: ast.stmt):
         self.cur_site_node = s
@@ -719,6 +731,7 @@ class Extractor:
                 self.walk_body(s.orelse)
             finally:
                 self.frames.pop()
+        self._last_if = (s, test_term, flip, decision)
 
     def static_test(self, e: ast.expr) -> bool:
         """Decide a python-level test in this configuration."""
@@ -1829,6 +1842,10 @@ _CMPOPS = {
 # driver: enumerate static configurations
 
 
+# every function extracted during a run (the driver's census of loop exits reads it)
+EXTRACTED: list = []
+
+
 def extract_all(repo: Repo, func: FuncInfo, bindings: Optional[dict] = None, max_configs: int = MAX_CONFIGS,
                 inline_depth: int = MAX_INLINE_DEPTH,
     enter: tuple = (),
@@ -1854,6 +1871,7 @@ def extract_all(repo: Repo, func: FuncInfo, bindings: Optional[dict] = None, max
             break
         trace[-1] = False
         script = trace
+    EXTRACTED.append((func, results))
     return results
 
 
